@@ -123,7 +123,23 @@ def o_inverse(inp):
     return got == n, f"{kind}: inverse pair applied to {n} gives {got!r}"
 
 
-ORACLES = {"monad": o_monad, "dyad": o_dyad, "inverse": o_inverse}
+def o_repeat(inp):
+    """the answer does not depend on what an earlier caller did with an earlier answer (results are not shared)"""
+    name, n = inp["f"], inp["n"]
+    fn, ref, lo = MONADS[name]
+    if n < lo:
+        return True, "outside the function's domain"
+    with alarm(20):
+        first = fn(n)
+        if isinstance(first, list) and first:
+            first[0] = 99          # what an in-place element (Ȧ, assign) does to a value it was handed
+            first.append(-1)
+        got = canon(fn(n))
+    want = ref(n)
+    return got == want, f"{name}({n}) asked again after the first answer was modified in place = {got!r}, definition gives {want!r}"
+
+
+ORACLES = {"monad": o_monad, "dyad": o_dyad, "inverse": o_inverse, "repeat": o_repeat}
 
 
 def run(ctx, widen=False):
@@ -139,6 +155,7 @@ def run(ctx, widen=False):
             for _ in range(300 if thorough else 40):
                 cases.append({"f": name, "n": rng.randrange(10 ** rng.randint(3, 12))})
     ctx.check_many("monad", cases)
+    ctx.check_many("repeat", [c for c in cases if c["n"] <= 400][::3], procs=1)
     M = 300 if ctx.tier == "thorough" else 40
     dy = [{"f": name, "a": a, "b": b} for name in DYADS for a in range(0, M + 1) for b in range(0, M + 1)]
     ctx.check_many("dyad", dy)
